@@ -15,6 +15,9 @@ Empty == [lines |-> <<>>, term |-> TRUE, api |-> <<>>, rr |-> TRUE, rapi |-> <<>
 Init == l = 1 /\ cur = Empty /\ judged = 0 /\ bad = FALSE
 
 Consistent(o) == NoJunk(o.lines) /\ Reading(o.lines) = NonEmpty(o.api)
+\* typed accessors (C15) log whether the getter returned the value that was set
+GetOK(ev) == IF "getok" \in DOMAIN ev THEN ev.getok ELSE TRUE
+Allowed(c, ev) == StepOK(c, ev, ev.post) /\ GetOK(ev)
 
 Next ==
   /\ l <= Len(Rec)
@@ -31,8 +34,8 @@ Next ==
             \* rejection is what is reported; later steps would only echo it)
             judged' = judged /\ bad' = TRUE
         ELSE /\ judged' = judged + 1
-             /\ bad' = ~StepOK(cur, ev, ev.post)
-             /\ (StepOK(cur, ev, ev.post) \/ PrintT(<<"TRACE-REJECTED", l, ev.op>>))
+             /\ bad' = ~Allowed(cur, ev)
+             /\ (Allowed(cur, ev) \/ PrintT(<<"TRACE-REJECTED", l, ev.op>>))
 
 Spec == Init /\ [][Next]_vars
 Complete == TLCGet("stats").diameter - 1 = Len(Rec)
